@@ -260,14 +260,12 @@ func c07GenRules(r *VRand, nUp int, resp bool, maxRules int, stats *VStats) []c0
 	var rules []c07Rule
 	for i := 0; i < n; i++ {
 		var rule c07Rule
-		if !resp && r.Chance(0.06) {
-			// internal dae selector rule: split away by SplitRequestRules
+		if !resp && nUp > 0 && r.Chance(0.06) {
+			// internal dae selector rule: split away by SplitRequestRules (daedns compiles it for dae's own
+			// look-ups: it must name a configured upstream and use a key all three selectors accept)
 			name := []string{"sub", "node", "subnode"}[r.Intn(3)]
-			rule.funcs = []c07Func{{name: name, params: []c07Param{{"tag", "t1", "t1"}}}}
-			rule.out = c07Out(r, nUp, false)
-			if rule.out == "reject" || rule.out == "asis" {
-				rule.out = "asis"
-			}
+			rule.funcs = []c07Func{{name: name, params: []c07Param{{"", "t1", "t1"}}}}
+			rule.out = fmt.Sprintf("u%d", r.Intn(nUp))
 			stats.Inc("rule.internal-selector")
 			rules = append(rules, rule)
 			continue
